@@ -20,7 +20,7 @@ Definition rewrite (bucket p : list N) : list N :=
 Definition host_bucket (host : list N) : list N := fst (cut dotc host).
 
 (* hostBucketBaseMiddleware.matchBucket: first base "."+trim(base,".") that is a suffix of the
-   host and leaves a prefix without '.' *)
+   host and leaves a non-empty prefix without '.' *)
 Definition strip_suffix (suf s : list N) : option (list N) :=
   if suffixb suf s then Some (firstn (length s - length suf) s) else None.
 
@@ -29,7 +29,8 @@ Fixpoint match_bucket (bases : list (list N)) (host : list N) : option (list N) 
   | [] => None
   | base :: rest =>
       match strip_suffix (dotc :: trim dotc base) host with
-      | Some b => if mem_byte dotc b then match_bucket rest host else Some b
+      | Some b => if mem_byte dotc b then match_bucket rest host
+                  else match b with [] => match_bucket rest host | _ => Some b end   (* ".base": no bucket *)
       | None => match_bucket rest host
       end
   end.
